@@ -283,6 +283,9 @@ def oracle(line, out, mode):
     o = (out or "").split(" ")
     if out in ("BADCASE", "SKIP", "WRONGMODE"):
         return None
+    if cmd == "IDPAIR" and out.startswith("ALTDIFF"):
+        return ("the ID of a bundle depends on how its primary block was constructed: PrimaryBlockBuilder with the same source, "
+                "timestamp, flags and fragment offset gives another ID than the public fields")
     if cmd == "IDPAIR":
         if o[0] != "OK":
             return "Bundle::id does not return normally: %s" % out[:30]
